@@ -26,6 +26,10 @@ claimed = {
    text="Proof (vesting lists bounded to 2 entries in the keeper-level obligations, labelled bounded): VestedSoFar equals the linear spec function for all inputs and never panics; schedule lemmas (monotone, within [0,Total], complete) on the spec function; ClaimVesting releases exactly what newly vested, conserves released+outstanding, mints only the native token, never panics on well-formed entries; CancelVest returns exactly the cancelled amount as claimable Eden and lowers the outstanding total by it without touching bank state; VestNow pays amount/factor; Vest adds exactly the vested-in amount. Two genuine defects were found by failing obligations (division by zero for zero-length schedules; claim panics after partial cancel), replayed on the real keeper and repaired by fix: commits.",
    note=COMMON_NOTE,
    ref="§8 C14"),
+ "C15": dict(
+   text="Proof plus complete enumeration: every bank MintCoins/BurnCoins call site in the elys packages (found in SSA, through declared supply-wrappers as well) sits in a function whose contract classifies the denoms it mints/burns, and those clauses are discharged on the real code: pool share mint/burn touch only that pool's share token, stablestake bond/unbond only the vault share token, vesting release and vest-now mint only the native token, the commitment MintCoins/BurnCoins wrappers never forward the ledger-only denoms (Eden, EdenB) to the bank, staking/LP reward mints are ledger-only literals. MatchAmmBalances (mints/burns pool assets) is proved unreachable from any message handler, block function or hook (migration only). Constant module names are cross-checked with the app's module-account permissions. One genuine deviation from the statement is a known finding (the burner burns any denom found at the zero address; replayed on the real app).",
+   note=COMMON_NOTE + "SDK modules' own minting/burning (mint module inflation is not wired, staking slashing, gov deposit burns, IBC transfer vouchers) is outside elys code and not examined. A new mint/burn site without a classifying contract fails the scan.",
+   ref="§8 C15"),
  "C17": dict(
    text="Proof over every handler found by mechanical enumeration (all methods of all types implementing a module's generated MsgServer interface): for each of the 38 handlers whose message carries a governance authority (field Authority, or Creator in the parameter module) the generated contract {msg.authority != k.authority} H {err != nil and no state-changing primitive ran} holds on every path; a message type with an Authority field that is never compared fails. Owner-scoped: tradeshield update/cancel (spot, perpetual, batch forms) succeed only when the stored order's owner equals the sender.",
    note=COMMON_NOTE + "Handlers without a governance authority are listed in the evidence, not claimed. Owner-keyed position lookups of leveragelp/perpetual close are covered under C10 where claimed.",
